@@ -156,6 +156,14 @@ Proof.
     + intros (s' & mep' & (C1 & C2 & _) & ->). inversion C1; subst s'. rewrite Ef in C2. inversion C2; subst mep'. reflexivity.
 Qed.
 
+Lemma receipts_root_ok_iff b r :
+  receipts_root_ok b r = true <-> h_receipts_root (b_header b) = r \/ b_rr_fix b = Some r.
+Proof.
+  unfold receipts_root_ok. rewrite orb_true_iff, N.eqb_eq. destruct (b_rr_fix b) as [x|].
+  - rewrite N.eqb_eq. split; (intros [H|H]; [left; exact H | right; congruence]).
+  - split; [intros [H|H]; [left; exact H | discriminate] | intros [H|H]; [left; exact H | discriminate]].
+Qed.
+
 Section Proofs.
   Variable State : Type.
   Variable exec : bctx -> State -> txn -> option (State * receipt).
@@ -278,7 +286,7 @@ Section Proofs.
     let h := b_header b in let ctx := ctx_of_header parent h in
     run ctx st1 (b_txs b) = Some (stf, rs) /\
     fresh [] (b_txs b) /\ deps_ok [] (b_txs b) rs /\
-    h_gas_used h = total_gas rs /\ h_receipts_root h = root_of_receipts rs /\
+    h_gas_used h = total_gas rs /\ (h_receipts_root h = root_of_receipts rs \/ b_rr_fix b = Some (root_of_receipts rs)) /\
     (pos = true -> sanity stf = true /\ rewards ctx stf <> None) /\
     h_state_root h = root_of_state (final_state pos ctx stf).
 
@@ -293,8 +301,11 @@ Section Proofs.
     - apply verify_txs_iff in Ev. destruct Ev as (Er & Eu & Ef & Ed & Eg). cbn [map] in Ef. rewrite N.add_0_l in Eu. subst u.
       destruct (N.eqb_spec (h_gas_used h) (total_gas rs)) as [E1|E1]; cbn [negb].
       2:{ split; [discriminate|]. intros (stf' & (Er' & _ & _ & C & _) & _). rewrite Er in Er'. inversion Er'; subst. contradiction. }
-      destruct (N.eqb_spec (h_receipts_root h) (root_of_receipts rs)) as [E2|E2]; cbn [negb].
-      2:{ split; [discriminate|]. intros (stf' & (Er' & _ & _ & _ & C & _) & _). rewrite Er in Er'. inversion Er'; subst. contradiction. }
+      destruct (receipts_root_ok b (root_of_receipts rs)) eqn:ERR; cbn [negb].
+      2:{ split; [discriminate|]. intros (stf' & (Er' & _ & _ & _ & C & _) & _). rewrite Er in Er'. inversion Er'; subst.
+          try rewrite Eqh in C. apply receipts_root_ok_iff in C. congruence. }
+      assert (E2 : h_receipts_root h = root_of_receipts rs \/ b_rr_fix b = Some (root_of_receipts rs))
+        by (rewrite Eqh; apply receipts_root_ok_iff; exact ERR).
       destruct pos.
       + destruct (sanity stf) eqn:Es; cbn [negb].
         2:{ split; [discriminate|]. intros (stf' & (Er' & _ & _ & _ & _ & C & _) & _). rewrite Er in Er'. inversion Er'; subst.
